@@ -1,0 +1,31 @@
+//go:build verif
+
+// Package verifhook provides fail points for the verification harness. With the
+// "verif" build tag the harness installs a handler; the error it returns is
+// returned by the function which reached the point (the member "stops there").
+package verifhook
+
+import "sync"
+
+var (
+	mu      sync.RWMutex
+	handler func(point, who string, part uint64) error
+)
+
+// Set installs the handler (nil removes it).
+func Set(h func(point, who string, part uint64) error) {
+	mu.Lock()
+	handler = h
+	mu.Unlock()
+}
+
+// Fire reports that the member `who` reached `point` while working on partition `part`.
+func Fire(point, who string, part uint64) error {
+	mu.RLock()
+	h := handler
+	mu.RUnlock()
+	if h == nil {
+		return nil
+	}
+	return h(point, who, part)
+}
